@@ -164,4 +164,24 @@ def lookupName (st : State) (n : Name) (len : Int) : Option Nat :=
   else if n.length < len.toNat then none
   else idOfName st (n.take len.toNat)
 
+/-! ### wire format codes (message.h): `size - 1`, kind bits 0x20 unsigned / 0x40 float / 0x60 signed, 0x80 native
+    (little endian) byte order -/
+
+def specMsgCode (t : Nat) : Option Nat :=
+  match scalarCTypes.find? (·.1 = t) with
+  | some (_, ct) =>
+    let kind : Option Nat :=
+      if t ∈ [98, 110, 105, 120] then some 0x60
+      else if t ∈ [121, 113, 117, 116] then some 0x20
+      else if t ∈ [102, 100, 101] then some 0x40
+      else none
+    match kind, abiSize ct with
+    | some k, some sz => some (sz - 1 + k + 0x80)
+    | _, _ => none
+  | none => none
+
+/-- the scalar type a wire format code stands for -/
+def specMsgType (fmt : Nat) : Option Nat :=
+  ([98, 110, 105, 120, 121, 113, 117, 116, 102, 100, 101].find? fun t => specMsgCode t = some fmt)
+
 end Mpt.RegSpec
